@@ -158,4 +158,44 @@ def nestedJsonToFlat (subset : List NJ) : CM (List Val) := flatMembers subset
 /-- the whole template-data value -/
 def nestedJsonToFlatAll (subsets : List (List NJ)) : CM (List (List Val)) := subsets.mapM nestedJsonToFlat
 
+/-! ### decidable side conditions of the conversion theorem (C09), evaluated per case by the driver -/
+
+/-- an attribute given at creation carries an `A` label exactly when it is an associated-field node -/
+def ownAttrOK (o : SubsetOut) : Node → Bool
+  | .value k i _ => match o.descs[i]? with
+    | some d => k.isAssoc == d.isAssoc
+    | none => false
+  | _ => false
+
+/-- an attribute attached through a bitmap link never carries an `A` label -/
+def tabAttrOK (o : SubsetOut) : Node → Bool
+  | .value _ i _ => match o.descs[i]? with
+    | some d => !d.isAssoc
+    | none => false
+  | _ => false
+
+def factorOK (o : SubsetOut) (n len : Nat) : Node → Bool
+  | .value _ i own => own.all (ownAttrOK o) && (match wireCount o i with
+    | .ok c => len == c * n
+    | .error _ => false)
+  | _ => false
+
+mutual
+def treeOKList (o : SubsetOut) : List Node → Bool
+  | [] => true
+  | n :: ns => treeOK1 o n && treeOKList o ns
+
+/-- ids of composites have the leading digit the converter looks at, every replication holds
+    `n_repeats * n_members` member nodes, creation-time attributes are labelled consistently -/
+def treeOK1 (o : SubsetOut) : Node → Bool
+  | .value _ _ own => own.all (ownAttrOK o)
+  | .noval _ => true
+  | .seq id ms => id / 100000 != 1 && treeOKList o ms
+  | .fixedRep id n ms => id / 100000 == 1 && ms.length == yOf id * n && treeOKList o ms
+  | .delayedRep id n f ms => id / 100000 == 1 && factorOK o n ms.length f && treeOKList o ms
+end
+
+def Wired.sideOK (o : SubsetOut) (w : Wired) : Bool :=
+  treeOKList o w.nodes && w.st.tab.all (fun p => tabAttrOK o p.2) && w.st.next == o.vals.length
+
 end Bufr
